@@ -93,3 +93,17 @@ Theorem C01_nested_complete : forall (A B : Type) (enc : dframe A -> list B) (de
   p_cur (n_in n) = None -> n_fl n = [] -> p_rq (n_in n) = [] -> p_delivered (n_in n) = p_submitted (n_in n).
 Proof. exact nested_complete_when_drained. Qed.
 Print Assumptions C01_nested_complete.
+
+(* end of stream: the reader is told "end of stream" only once it has obtained every message
+   that was submitted, and never while a data frame is still ahead of the marker - under every
+   interleaving of sender, carrier, receive loop, reader and credit flow *)
+From GT Require Import PipeEof.
+Theorem C01_eof_only_after_everything : forall (A : Type) cmax W ls (s : est A),
+  erun cmax (e_init A W) ls = Some s -> e_half s = ESeen -> p_delivered (e_p s) = p_submitted (e_p s).
+Proof. exact eof_only_after_everything. Qed.
+Print Assumptions C01_eof_only_after_everything.
+
+Theorem C01_eof_never_overtakes_data : forall (A : Type) cmax W ls (s : est A),
+  erun cmax (e_init A W) ls = Some s -> (p_wire (e_p s) <> [] \/ p_rq (e_p s) <> []) -> estep cmax s EReadEof = None.
+Proof. exact eof_not_before_queued_data. Qed.
+Print Assumptions C01_eof_never_overtakes_data.
